@@ -530,7 +530,8 @@ static void wlIdleWake() {
   sim_note("threads", nThreads);
   sim_note("path", path);
   sim_note("n", n);
-  dispenso::ThreadPool pool((size_t)nThreads);
+  std::unique_ptr<dispenso::ThreadPool> poolOwner(new dispenso::ThreadPool((size_t)nThreads)); // heap: store-buffer fault
+  dispenso::ThreadPool& pool = *poolOwner;
   ctx.pool = &pool;
   // wait until every worker is parked in its (timed) futex wait
   sim_faults_enable(0);
@@ -658,7 +659,8 @@ static void wlIdleWakeRepeat() {
   sim_note("threads", nThreads);
   sim_note("rounds", rounds);
   sim_note("path", mixPaths ? -1 : path0);
-  dispenso::ThreadPool pool((size_t)nThreads);
+  std::unique_ptr<dispenso::ThreadPool> poolOwner(new dispenso::ThreadPool((size_t)nThreads)); // heap: store-buffer fault
+  dispenso::ThreadPool& pool = *poolOwner;
   ctx.pool = &pool;
   dispenso::TaskSet ts(pool);
   dispenso::ConcurrentTaskSet cts(pool, dispenso::TaskCost::kLightweight);
@@ -712,9 +714,9 @@ static void wlIdleWakeRepeat() {
 
 } // namespace
 
-HX_WORKLOAD("C03", "resize", wlResize, SF_ALL, 6000000, 6000000, 1);
-HX_WORKLOAD("C08", "accounting", wlAccounting, SF_ALL, 6000000, 6000000, 1);
-HX_WORKLOAD("C09", "shutdown", wlShutdown, SF_DELAY_ONLY & ~SF_BIT(SF_LATE_TIMER), 6000000, 6000000, 1);
+HX_WORKLOAD("C03", "resize", wlResize, SF_ALL | SF_TSO, 6000000, 6000000, 1);
+HX_WORKLOAD("C08", "accounting", wlAccounting, SF_ALL | SF_TSO, 6000000, 6000000, 1);
+HX_WORKLOAD("C09", "shutdown", wlShutdown, (SF_DELAY_ONLY & ~SF_BIT(SF_LATE_TIMER)) | SF_TSO, 6000000, 6000000, 1);
 // spurious wakes would rescue a missed wake, late timers would only postpone the backstop: both off
-HX_WORKLOAD("C07", "idle-wake", wlIdleWake, SF_BIT(SF_WAKE_CHOICE) | SF_BIT(SF_STALL) | SF_BIT(SF_YIELD_NOOP), 6000000, 6000000, 2);
-HX_WORKLOAD("C07", "idle-wake-repeat", wlIdleWakeRepeat, SF_BIT(SF_WAKE_CHOICE) | SF_BIT(SF_STALL) | SF_BIT(SF_YIELD_NOOP), 8000000, 8000000, 1);
+HX_WORKLOAD("C07", "idle-wake", wlIdleWake, SF_BIT(SF_WAKE_CHOICE) | SF_BIT(SF_STALL) | SF_BIT(SF_YIELD_NOOP) | SF_TSO, 6000000, 6000000, 2);
+HX_WORKLOAD("C07", "idle-wake-repeat", wlIdleWakeRepeat, SF_BIT(SF_WAKE_CHOICE) | SF_BIT(SF_STALL) | SF_BIT(SF_YIELD_NOOP) | SF_TSO, 8000000, 8000000, 1);
